@@ -94,6 +94,11 @@ def templates():
         "two-gen": dict(parent=[[U, U], [U, U], [0, 1], [U, U], [2, 3]], tau=[[1, 1]] * 5),
         "two-gen4x": dict(parent=[[U, U], [U, U], [0, 1], [U, 2]], tau=[[2, 2]] * 4),
         "sibs-unbalanced": dict(parent=[[U, U], [U, U], [0, 1], [0, 1]], tau=[[2, 2], [2, 2], [1, 3], [2, 2]]),
+        # families of full sibs (same parents, same gamete ploidies): the sibs may well hold the same genotype while
+        # their own parameters (parent-error, double reduction) differ
+        "fullsibs2x": dict(parent=[[U, U], [U, U], [0, 1], [0, 1], [0, 1]], tau=[[1, 1]] * 5),
+        "fullsibs4x": dict(parent=[[U, U], [U, U], [0, 1], [0, 1], [0, 1], [0, 1]], tau=[[2, 2]] * 6),
+        "fullsibs+halfsib": dict(parent=[[U, U], [U, U], [U, U], [0, 1], [0, 1], [0, 2], [0, 1]], tau=[[1, 1]] * 7),
         # a member of a parental pair with further progeny of its own (other parent unknown / itself / its own child)
         "pair+duo-p": dict(parent=[[U, U], [U, U], [0, 1], [0, U]], tau=[[1, 1]] * 4),
         "pair+duo-q": dict(parent=[[U, U], [U, U], [0, 1], [U, 1]], tau=[[1, 1]] * 4),
@@ -206,6 +211,11 @@ def gen_pedigree(r, name=None, directed=False):
             g[r.randrange(len(g))] = r.randrange(n)
         r.shuffle(g)
         state[i, :ploidy[i]] = g
+        # a full sib (same parents, same gamete ploidies) of an earlier individual often carries the very same genotype row
+        for i0 in range(i):
+            if (parents[i0] == parents[i]).all() and parents[i].min() >= 0 and (tau[i0] == tau[i]).all() and r.random() < 0.45:
+                state[i] = state[i0]
+                break
     if zero_err:
         err[:] = 0.0
     kind = r.choice(["flat", "skew"])
